@@ -56,7 +56,10 @@ func (s *Syncer) parallelSync(ctx context.Context, cs consensus.State, headers [
 		startTime := time.Now()
 		if req.base.Height >= cs.Network.HardforkV2.RequireHeight {
 			cs, b, err := p.SendCheckpoint(req.base, cs.Network, s.config.SendBlockTimeout)
-			if err != nil {
+			if errors.Is(err, errInvalidCheckpoint) {
+				s.ban(p, err)
+				return Resp{req: req, peer: p, err: err}
+			} else if err != nil {
 				return Resp{req: req, peer: p, err: err}
 			}
 			cs, _ = consensus.ApplyBlock(cs, b, consensus.V1BlockSupplement{}, time.Time{})
